@@ -365,7 +365,7 @@ func (db *MultiBucketBackend) HeadObject(bucketName, objectName string) (*gofake
 	fullPath := path.Join(bucketName, objectName)
 
 	stat, err := db.bucketFs.Stat(filepath.FromSlash(fullPath))
-	if os.IsNotExist(err) {
+	if noSuchFile(err) {
 		return nil, gofakes3.KeyNotFound(objectName)
 	} else if err != nil {
 		return nil, err
@@ -408,7 +408,7 @@ func (db *MultiBucketBackend) GetObject(bucketName, objectName string, rangeRequ
 	fullPath := path.Join(bucketName, objectName)
 
 	f, err := db.bucketFs.Open(filepath.FromSlash(fullPath))
-	if os.IsNotExist(err) {
+	if noSuchFile(err) {
 		return nil, gofakes3.KeyNotFound(objectName)
 	} else if err != nil {
 		return nil, err
@@ -581,7 +581,7 @@ func (db *MultiBucketBackend) deleteObjectLocked(bucketName, objectName string) 
 
 	// S3 does not report an error when attemping to delete a key that does not exist, so
 	// we need to skip IsNotExist errors.
-	if err := db.bucketFs.Remove(filepath.FromSlash(fullPath)); err != nil && !os.IsNotExist(err) {
+	if err := db.bucketFs.Remove(filepath.FromSlash(fullPath)); err != nil && !noSuchFile(err) {
 		return err
 	}
 
